@@ -81,6 +81,7 @@ struct data_action
     long long limit = -1;
     bool other_cert = false;             // TLS: handshake with the other context (a certificate of another CA, no session to resume)
     bool pause = false;                  // send: sleep a few milliseconds between segments so that the reader sees them one by one
+    bool early_close = false;            // TLS: the peer closes its connection (FIN) instead of answering the handshake
 };
 
 struct group
@@ -123,6 +124,7 @@ inline bool parse_group(const std::string & s, group & g)
                 g.act.truncate = !p[3].empty() && p[3][0] == 't';
                 g.act.pause = p[3].find('p') != std::string::npos;     // "cp": a short pause between the segments
                 g.act.other_cert = p[3].find('b') != std::string::npos; // "cb": the data peer answers with the *other* TLS context (other CA)
+                g.act.early_close = p[3].find('k') != std::string::npos; // "ck": the data peer closes instead of handshaking
             }
             else if (p[0] == "recv" && p.size() == 3)
             {
@@ -226,7 +228,8 @@ public:
                 setsockopt(fd, SOL_SOCKET, SO_RCVTIMEO, &tv, sizeof tv); setsockopt(fd, SOL_SOCKET, SO_SNDTIMEO, &tv, sizeof tv);
                 SSL *ssl = nullptr;
                 bool go = true;
-                if (tls && tls_ctx)
+                if (tls && tls_ctx && act.early_close) { err = "closed-before-handshake"; go = false; ::shutdown(fd, SHUT_WR); }
+                else if (tls && tls_ctx)
                 {
                     ssl = SSL_new(act.other_cert && tls_ctx_other ? tls_ctx_other : tls_ctx);
                     SSL_set_fd(ssl, fd);
